@@ -13,6 +13,7 @@ type (
 		ExprBase
 		TypeX *TypeExpr
 		X     Expr
+		flat  bool // aggregate cast: component-by-component over the flattened lists
 	}
 	// hlslCtor is a numeric constructor / functional cast "T(a, b, ...)".
 	hlslCtor struct {
@@ -240,11 +241,16 @@ func (x *hlslCast) checkCustom(c *checker) Expr {
 	case ft.IsScalar():
 		// (S)0, (T[N])0: the scalar is converted to every component
 	default:
-		if ft.nsc == t.nsc && !hlslIsNumeric(ft) && !hlslIsNumeric(t) {
-			c.unsupported(x.Pos, "cast between distinct aggregate types %s and %s", hlslTypeName(ft), hlslTypeName(t))
+		// HLSL reference, "Type casts": an explicit cast between aggregate /
+		// numeric types is allowed when the flattened component lists have the
+		// same length (struct <-> matrix, array of struct <-> array of matrix);
+		// components are converted one by one.
+		if ft.nsc == t.nsc && !ft.hasRuntimeArray() && !t.hasRuntimeArray() {
+			x.flat = true
+			return x
 		}
-		if ft.nsc >= t.nsc {
-			c.unsupported(x.Pos, "cast of aggregate %s to %s", hlslTypeName(ft), hlslTypeName(t))
+		if ft.nsc > t.nsc {
+			c.unsupported(x.Pos, "truncating cast of aggregate %s to %s", hlslTypeName(ft), hlslTypeName(t))
 		}
 		c.invalid(x.Pos, "type", "cannot cast %s to %s", hlslTypeName(ft), hlslTypeName(t))
 	}
@@ -252,7 +258,15 @@ func (x *hlslCast) checkCustom(c *checker) Expr {
 }
 
 func (x *hlslCast) evalCustom(ev *evaluator) Value {
-	return ev.hlslConvertValue(ev.eval(x.X), x.T)
+	v := ev.eval(x.X)
+	if x.flat {
+		r := ev.mk(x.T)
+		for i := range r.C {
+			r.C[i] = ev.hlslConvCell(v.C[i], leafKind(v.T, i), leafKind(x.T, i))
+		}
+		return r
+	}
+	return ev.hlslConvertValue(v, x.T)
 }
 
 // ---------------------------------------------------------------------------
